@@ -114,7 +114,8 @@ Definition axis_unify_check
   let vars := fvn_list (es ++ fs) in
   let spec := coincidences es fs vars in
   let oracle :=
-    if i_ok then (if seteq nat_list_eqb i_den spec then 0 else 1)
+    if negb typed then 0      (* malformed stream: only agreement with the model is required *)
+    else if i_ok then (if seteq nat_list_eqb i_den spec then 0 else 1)
     else if typed && nonempty spec then 2
     else if typed && i_warn then 3
     else 0 in
